@@ -38,7 +38,9 @@ class StubSim(DynamicOrderSimulation):
         self.done_at = list(script["doneAt"])
         self.finish_at = script["finishAt"]
         self.noms = [list(x) for x in script["noms"]]
-        self.ids = [f"a{i}" for i in range(self.n)]
+        # ids are deliberately NOT in lexicographic order (nor of equal length): code that sorts ids, iterates a
+        # set of them or compares them as strings then differs visibly from code that keeps the listing order
+        self.ids = [f"{'zwxbyvcuat'[i % 10]}{i}{'_' * (i % 3)}" for i in range(self.n)]
         self.idx = {aid: i for i, aid in enumerate(self.ids)}
         agents = {}
         for i, aid in enumerate(self.ids):
